@@ -315,6 +315,30 @@ fn run(ctx: &Ctx, rep: &Report) {
             Ok(p) => p.payload_start,
             Err(_) => continue,
         };
+        // bytes removed or inserted at the seams between the segments (lead | signature header |
+        // padding | main header | payload): whatever the parser still accepts must come back unchanged
+        if let Ok(p) = walk_package_opt(base_bytes, true) {
+            let sig_end = p.sig.end;
+            for seam in [96usize, sig_end, p.hdr.start, p.hdr.end] {
+                for k in 1..=8usize {
+                    if seam + k <= base_bytes.len() {
+                        let mut m = base_bytes.clone();
+                        m.drain(seam..seam + k);
+                        b.push("seam-deletion", m, json!({"base": label, "seam": seam, "removed_after": k}));
+                    }
+                    if seam >= k {
+                        let mut m = base_bytes.clone();
+                        m.drain(seam - k..seam);
+                        b.push("seam-deletion", m, json!({"base": label, "seam": seam, "removed_before": k}));
+                    }
+                    let mut m = base_bytes.clone();
+                    for _ in 0..k {
+                        m.insert(seam, 0);
+                    }
+                    b.push("seam-insertion", m, json!({"base": label, "seam": seam, "inserted": k}));
+                }
+            }
+        }
         let limit = meta_len.min(ctx.tier.pick(3000, 20_000));
         for byte in 0..limit {
             for bit in 0..8u8 {
